@@ -328,6 +328,38 @@ def search(ck, tier, seed):
                 else:
                     ck.count("agrees with 1 to 1e-5, resolution <= 2e-6" if est <= 2e-6 else
                              "agrees with 1 within resolution <= 1e-4" if est <= 1e-4 else "agrees with 1 within coarse resolution")
+    # base distributions with very small and very large scales under a flow (log-std from -9 to 3): each integrated over a window of
+    # +-14 standard deviations around its mode, where a Gaussian keeps all but 1e-40 of its mass
+    from nflows.flows.base import Flow as _Flow
+    from nflows.distributions import normal as _normal
+    from nflows.transforms import standard as _standard
+    for bname in ("ConditionalDiagonalNormal", "DiagonalNormal"):
+        for ls in (-9.0, -7.5, -5.0, 0.0, 3.0):
+            mean_ = 0.37
+            if bname == "DiagonalNormal":
+                base_ = _normal.DiagonalNormal([1]).double()
+                with torch.no_grad():
+                    base_.mean_.fill_(mean_)
+                    base_.log_std_.fill_(ls)
+                ctx_ = None
+            else:
+                base_ = _normal.ConditionalDiagonalNormal([1]).double()
+                ctx_ = torch.tensor([[mean_, ls]], dtype=torch.float64)
+            fl_ = _Flow(_standard.PointwiseAffineTransform(0.3, 1.7), base_).double().eval()
+            sd_ = math.exp(ls)
+            xc, half = (mean_ - 0.3) / 1.7, 14.0 * sd_ / 1.7
+            xs_ = torch.linspace(xc - half, xc + half, 40001, dtype=torch.float64)
+            ck.case(("c03-scale", bname, ls), nontrivial=True)
+            case = {"search": "base-scale", "base": bname, "log_std": ls, "seed": seed}
+            with torch.no_grad():
+                lp_ = attempt(lambda: fl_.log_prob(xs_[:, None], None if ctx_ is None else ctx_.expand(xs_.shape[0], -1)))
+            if lp_[0] != "ok":
+                ck.finding("flow:log_prob-fails:Flow(affine, %s)" % bname, "log_std %g: %s %s" % (ls, lp_[1], lp_[2]), case)
+                continue
+            mass = float(torch.trapezoid(torch.exp(lp_[1]), xs_))
+            if abs(mass - 1) > 1e-6:
+                ck.finding("flow:density-does-not-integrate-to-one:Flow(affine, %s)" % bname,
+                           "base log-std %g (std %.3g): integral %.8f over +-14 standard deviations" % (ls, sd_, mass), case)
     # the same one-dimensional flows once more as a RESTORED model: evaluated once, then given another checkpoint through
     # load_state_dict (every floating-point entry of the state dict scaled by 1 + 0.2 * noise): whatever was derived from the old
     # values (a memoised log-abs-det, a cached matrix) must follow, or the density no longer integrates to one
